@@ -11,6 +11,7 @@ import (
 	"strconv"
 	"strings"
 	"sync"
+	"sync/atomic"
 	"time"
 
 	"github.com/pinealctx/neptune/cache"
@@ -26,6 +27,35 @@ import (
 type sval struct{ id, size int }
 
 func (v *sval) Size() int { return v.size }
+
+// pval: a value whose Size() panics
+type pval struct{ id int }
+
+func (v *pval) Size() int { panic("Size() of this value panics") }
+
+const faultSz = -987654321987
+
+// mkVal: script value 0 = a nil Value (cannot be sized), size token `p` = a value whose Size() panics
+func mkVal(v, sz int) cache.Value {
+	switch {
+	case v == 0:
+		return nil
+	case sz == faultSz:
+		return &pval{v}
+	}
+	return &sval{v, sz}
+}
+
+// valOf reads a stored value back; a value that could not be sized is shown with size 0 (only a defective cache stores one)
+func valOf(x cache.Value) (id, sz int) {
+	switch v := x.(type) {
+	case *sval:
+		return v.id, v.size
+	case *pval:
+		return v.id, 0
+	}
+	return 0, 0
+}
 
 type item struct{ k, v, sz int }
 
@@ -119,8 +149,8 @@ type lruAPI interface {
 type sizedAd struct{ c *cache.LRUCache }
 
 func (a sizedAd) Pkg() string               { return "cache.LRUCache" }
-func (a sizedAd) Set(k, v, sz int)          { a.c.Set(goKey(k), &sval{v, sz}) }
-func (a sizedAd) SetIfAbsent(k, v, sz int)  { a.c.SetIfAbsent(goKey(k), &sval{v, sz}) }
+func (a sizedAd) Set(k, v, sz int)          { a.c.Set(goKey(k), mkVal(v, sz)) }
+func (a sizedAd) SetIfAbsent(k, v, sz int)  { a.c.SetIfAbsent(goKey(k), mkVal(v, sz)) }
 func (a sizedAd) Exist(k int) bool          { return a.c.Exist(goKey(k)) }
 func (a sizedAd) Delete(k int) bool         { return a.c.Delete(goKey(k)) }
 func (a sizedAd) Clear()                    { a.c.Clear() }
@@ -131,8 +161,9 @@ func (a sizedAd) Accessors() (l, s, c, e int64) {
 }
 func (a sizedAd) SetAndGetRemoved(k, v, sz int) []int {
 	var out []int
-	for _, x := range a.c.SetAndGetRemoved(goKey(k), &sval{v, sz}) {
-		out = append(out, x.(*sval).id)
+	for _, x := range a.c.SetAndGetRemoved(goKey(k), mkVal(v, sz)) {
+		id, _ := valOf(x)
+		out = append(out, id)
 	}
 	return out
 }
@@ -141,14 +172,16 @@ func (a sizedAd) Get(k int) (int, bool) {
 	if !ok {
 		return 0, false
 	}
-	return v.(*sval).id, true
+	id, _ := valOf(v)
+	return id, true
 }
 func (a sizedAd) Peek(k int) (int, bool) {
 	v, ok := a.c.Peek(goKey(k))
 	if !ok {
 		return 0, false
 	}
-	return v.(*sval).id, true
+	id, _ := valOf(v)
+	return id, true
 }
 func (a sizedAd) Keys() []int {
 	var out []int
@@ -160,8 +193,8 @@ func (a sizedAd) Keys() []int {
 func (a sizedAd) Items() []item {
 	var out []item
 	for _, it := range a.c.Items() {
-		v := it.Value.(*sval)
-		out = append(out, item{natKey(it.Key), v.id, v.Size()})
+		id, sz := valOf(it.Value)
+		out = append(out, item{natKey(it.Key), id, sz})
 	}
 	return out
 }
@@ -274,6 +307,11 @@ type snap struct {
 	items      []item
 	l, s, c, e int64
 	acc        [4]int64 // Length(), Size(), Capacity(), Evictions() called one by one
+}
+
+func (sn snap) itemSize(k int) int {
+	it, _ := lookup(sn.items, k)
+	return it.sz
 }
 
 func takeSnap(a lruAPI) snap {
@@ -413,12 +451,26 @@ func (r *runner) line(line string) string {
 		out := r.conc(seed, th, ops)
 		return out
 	}
+	// `set|sia|sgr k v p`: the value's Size() panics
+	fault := len(f) == 4 && f[3] == "p" && (f[0] == "set" || f[0] == "sia" || f[0] == "sgr")
+	if fault {
+		f = []string{f[0], f[1], f[2], "0"}
+	}
 	op, args, ok := parseOp(f)
 	if !ok || r.mode == "" {
 		return "bad-op"
 	}
 	if r.mode == "wide" {
+		if fault {
+			return "bad-op"
+		}
 		return r.wideOp(op, args)
+	}
+	if fault {
+		if r.tiny {
+			return "bad-op" // tiny never sizes a value
+		}
+		args[2] = faultSz
 	}
 	return r.singleOp(op, args)
 }
@@ -458,7 +510,7 @@ func (r *runner) singleOp(op string, args []int64) string {
 	}
 	switch op {
 	case "set", "sia", "sgr":
-		if args[2] < 0 {
+		if args[2] < 0 && args[2] != faultSz {
 			r.regime = false
 		}
 	case "cap":
@@ -522,6 +574,18 @@ func (r *runner) singleOp(op string, args []int64) string {
 	var after snap
 	if guard(func() { after = takeSnap(a) }) {
 		return "panic"
+	}
+	faulting := (op == "set" || op == "sia" || op == "sgr") && !r.tiny && (args[2] == faultSz || args[1] == 0)
+	if faulting {
+		if _, present := lookup(before.items, int(args[0])); op == "sia" && present {
+			args[2] = int64(before.itemSize(int(args[0]))) // SetIfAbsent on a present key never sizes the value: plain refresh
+		} else {
+			// the call must fail and leave the cache exactly as it was
+			if r.regime && (!p || before.String() != after.String()) {
+				r.hit("C04:"+a.Pkg()+":failed-set-leaves-entry", fmt.Sprintf("%s of key %d with a value whose Size() panics (or a nil value): panicked=%v; before %s, after %s", methodOf[op], args[0], p, before, after))
+			}
+			return res + " | " + after.String()
+		}
 	}
 	if r.regime {
 		r.monitor(op, args, before, after, res, removed, gotV, gotOK, p)
@@ -910,6 +974,68 @@ func concChild(args []string) {
 		case sn.s > sn.c:
 			fail(fmt.Sprintf("size %d exceeds capacity %d at quiescence", sn.s, sn.c))
 		}
+	}
+	// second phase (single caches): every snapshot a reader takes WHILE writers run must be a state some linearisation
+	// passes through. Writers store unit-size items only and never change the capacity, so in every such state
+	// length == size <= capacity; Stats() must never show anything else, Keys()/Items() never a duplicate.
+	if w == nil && bad == "" {
+		var b lruAPI
+		if kind == "tiny" {
+			b = tinyAd{tiny.NewLRUCache(capacity)}
+		} else {
+			b = sizedAd{cache.NewLRUCache(capacity)}
+		}
+		var running int32 = int32(threads)
+		var wg2 sync.WaitGroup
+		for t := 0; t < threads; t++ {
+			wg2.Add(1)
+			go func(t int) {
+				defer wg2.Done()
+				defer atomic.AddInt32(&running, -1)
+				g := rng.New(uint64(seed)*31 + uint64(t) + 1000)
+				for i := 0; i < 4*ops; i++ {
+					k, v := g.Intn(universe), t*100000+i+1
+					switch g.Intn(6) {
+					case 0, 1:
+						b.Set(k, v, 1)
+					case 2:
+						b.SetIfAbsent(k, v, 1)
+					case 3:
+						b.SetAndGetRemoved(k, v, 1)
+					case 4:
+						b.Get(k)
+					default:
+						b.Delete(k)
+					}
+				}
+			}(t)
+		}
+		for rd := 0; rd < 2; rd++ {
+			wg2.Add(1)
+			go func(rd int) {
+				defer wg2.Done()
+				for n := 0; atomic.LoadInt32(&running) > 0 || n < 10; n++ {
+					l, sz, c, _ := b.Stats()
+					if l != sz || sz > c {
+						fail(fmt.Sprintf("Stats() taken while writers run shows length %d, size %d, capacity %d — with unit-size items no cache state has length != size or size > capacity", l, sz, c))
+						return
+					}
+					seen := map[int]bool{}
+					for _, q := range b.Keys() {
+						if seen[q] {
+							fail("duplicate key in Keys() taken while writers run")
+							return
+						}
+						seen[q] = true
+					}
+					if its := b.Items(); int64(len(its)) > c {
+						fail(fmt.Sprintf("Items() taken while writers run lists %d unit items, capacity %d", len(its), c))
+						return
+					}
+				}
+			}(rd)
+		}
+		wg2.Wait()
 	}
 	if bad != "" {
 		fmt.Println("inv-violated: " + bad)
